@@ -63,7 +63,7 @@ fn run<P: PatProp>(ctx: &RunCtx, prop: &P, n: &Node, text: &str) -> Option<Found
 }
 
 pub fn diff_prop() -> DiffRef {
-    DiffRef { caps: true, allow_cond: false, cond_focus: false, omit_empty_no: false, only_pos0: false, f1_undisputed: false, free_cond_refs: false }
+    DiffRef { caps: true, allow_cond: false, cond_focus: false, omit_empty_no: false, only_pos0: false, f1_undisputed: false, free_cond_refs: false, ref_style: 0 }
 }
 
 /// C05 oracle on a fuzz input; Some(description) = violation
